@@ -15,6 +15,10 @@ RULES = {
              "iteration of the planning loop, the only branches that may bypass that widening are: the peek flag being false - and that flag is cleared only under start_offset = "
              "Some(_) (offset-addressed reads trim by their own hint) -, the header not fitting into the block's used bytes, an invalid header length, and a failed header decode. "
              "A budget class for which the widening is skipped plans a range that ends inside the first entry, which the parser then drops: the entry is skipped or never delivered",
+    "C03.4": "a budget stop ends the batch: from the edge on which the parser gives up an entry because the byte budget is exhausted (`next_total > max_bytes` with the vector not "
+             "empty) no further push into the returned vector is reachable (boolean flags assigned on the way are taken at their value). Otherwise the entries of a later planned "
+             "range - the next block, the tail - are delivered and the cursor is committed past the block in which the parser stopped, and the entries left in that block are never "
+             "delivered",
 }
 
 LEMMA = ("C03.1: len(R)=0 initially and pushes are the only growth; each push executes with len(R) <= 1999 established after the previous push, "
@@ -241,6 +245,47 @@ def check(ctx, facts, fn_name="batch_read_for_topic", cap=CAP):
         ctx.violate("C03.2", F, "max_bytes-reassigned", fn.relfile, site.line, "the budget argument is overwritten inside the function")
 
 
+def check_budget_stop_ends_batch(ctx, facts, fn_name="batch_read_for_topic", rid="C03.4"):
+    fn = facts.body(fn_name)
+    F = common.short_fn(fn.name)
+    Rs = returned_vec(fn)
+    pushes = [s for s in fn.calls(re.compile(r"Vec::push$")) if borrowed_local(fn, s.node["args"][0]) in Rs]
+    max_arg = fn.arg_local("max_bytes")
+    tests = all_tests(fn)
+    stops = []
+    for T in tests:
+        if T.kind == "cmp" and T.op in ("Gt", "Ge", "Lt", "Le") and (op_local(T.a) == max_arg or op_local(T.b) == max_arg):
+            x = T.b if op_local(T.a) == max_arg else T.a
+            src, _, _ = origins(fn, x, stop_calls=[r"checked_add$", r"saturating_add$"])
+            if not any(o.kind == "call" and re.search(r"(checked_add|saturating_add)$", o.what) for o in src):
+                continue
+            op = T.op if op_local(T.b) == max_arg else {"Lt": "Gt", "Le": "Ge", "Gt": "Lt", "Ge": "Le"}[T.op]
+            fail = T.true_edge if op in ("Gt", "Ge") else T.false_edge
+            # the stop proper: budget failed AND the vector is not empty (the at-least-one escape goes on to push)
+            stop_edges = []
+            for T2 in tests:
+                if T2.kind == "call" and EMPTY_RE.search(T2.callee) and borrowed_local(fn, T2.args[0]) in Rs and fn.edge_guards(fail, T2.bb):
+                    stop_edges.append(T2.false_edge)
+            stops.append((T, stop_edges or [fail]))
+    if not stops or not pushes:
+        ctx.anchor_missing(rid, "budget test / push in " + F)
+        return
+    n = 0
+    for T, edges in stops:
+        for e in edges:
+            n += 1
+            reach = fn.reachable_with_flags(e[1])
+            hit = [p for p in pushes if p.bb in reach]
+            if hit:
+                ctx.violate(rid, F, "push-reachable-after-budget-stop", fn.relfile, fn.term(e[0]).get("line"),
+                            "after the parser has stopped at an entry that does not fit the byte budget, a later planned range is still parsed and its entries are pushed (line %s): "
+                            "the cursor is then committed past the block that still holds the entry that did not fit, and that entry (and everything behind it in its block) is "
+                            "never delivered" % hit[0].line)
+            else:
+                ctx.ok(rid, F, "no push is reachable after the budget stop", fn.relfile, fn.term(e[0]).get("line"))
+    ctx.floor(rid, "budget stop edges", n, 1)
+
+
 def _value_only_under(b, local, value, edges, so_keys, depth=0, seen=None):
     """Sites at which bool `local` may receive `value` although none of `edges` guards the site.
     Follows copies and negations; a constant of the other value is harmless; the result of
@@ -419,6 +464,7 @@ def run(ctx):
     facts = common.mir(ctx, "walrus_rust")
     check(ctx, facts)
     check_first_entry_widening(ctx, facts)
+    check_budget_stop_ends_batch(ctx, facts)
     ctx.assume("rustc MIR construction and callee resolution; Vec::push grows by exactly one; std checked_add/saturating_add do not wrap")
     ctx.assume("of the progress clause (at least one entry whenever one is unconsumed) only C03.3's structural part is decided; the planner arithmetic over runtime sizes is not")
     return {
